@@ -22,7 +22,7 @@ use rustc_middle::mir::{
     self, AggregateKind, BasicBlock, Body, BorrowKind, CastKind, Const as MConst, ConstValue,
     Operand, Place, ProjectionElem, Rvalue, StatementKind, TerminatorKind, UnwindAction,
 };
-use rustc_middle::ty::print::{with_no_trimmed_paths, PrintTraitRefExt};
+use rustc_middle::ty::print::{with_crate_prefix, with_no_trimmed_paths, PrintTraitRefExt};
 use rustc_middle::ty::{self, Instance, Ty, TyCtxt, TypingEnv};
 use rustc_span::Span;
 
@@ -36,7 +36,9 @@ struct Cb {
 impl rustc_driver::Callbacks for Cb {
     fn after_expansion<'tcx>(&mut self, _c: &Compiler, tcx: TyCtxt<'tcx>) -> Compilation {
         if let Some(out) = &self.out {
-            let text = with_no_trimmed_paths!(dump_crate(tcx));
+            let text = with_crate_prefix!(with_no_trimmed_paths!(dump_crate(tcx)));
+            let krate = tcx.crate_name(LOCAL_CRATE).to_string();
+            let text = text.replace("crate::", &format!("{}::", krate));
             std::fs::write(out, text).expect("aqfacts: cannot write fact file");
         }
         Compilation::Continue
@@ -85,11 +87,12 @@ struct Cx<'tcx> {
     krate: String,
     // monomorphic ADT types (from workspace crates) seen anywhere, for layouts
     mono: BTreeMap<String, Ty<'tcx>>,
+    cur_locals: Vec<Ty<'tcx>>,
 }
 
 fn dump_crate<'tcx>(tcx: TyCtxt<'tcx>) -> String {
     let krate = tcx.crate_name(LOCAL_CRATE).to_string();
-    let mut cx = Cx { tcx, krate: krate.clone(), mono: BTreeMap::new() };
+    let mut cx = Cx { tcx, krate: krate.clone(), mono: BTreeMap::new(), cur_locals: Vec::new() };
 
     let mut bodies = Vec::new();
     for ldid in tcx.hir_body_owners() {
@@ -153,8 +156,7 @@ fn dump_crate<'tcx>(tcx: TyCtxt<'tcx>) -> String {
 
 impl<'tcx> Cx<'tcx> {
     fn def_path(&self, did: DefId) -> String {
-        let s = self.tcx.def_path_str(did);
-        if did.is_local() { format!("{}::{}", self.krate, s) } else { s }
+        self.tcx.def_path_str(did)
     }
 
     fn ty_s(&mut self, ty: Ty<'tcx>) -> String {
@@ -209,6 +211,7 @@ impl<'tcx> Cx<'tcx> {
 
     fn body(&mut self, body: &Body<'tcx>, owner: LocalDefId, kind: DefKind, promoted: Option<usize>) -> J {
         let tcx = self.tcx;
+        self.cur_locals = body.local_decls.iter().map(|d| d.ty).collect();
         let mut j = J::obj();
         let kind_s = if promoted.is_some() {
             "promoted"
@@ -464,15 +467,37 @@ impl<'tcx> Cx<'tcx> {
     }
 
     fn place(&mut self, p: &Place<'tcx>) -> J {
+        let tcx = self.tcx;
         let mut j = J::obj();
         j.set("l", J::n(p.local.index() as i128));
         if !p.projection.is_empty() {
             let mut pj = Vec::new();
+            let mut pty = self.cur_locals.get(p.local.index()).map(|t| mir::PlaceTy::from_ty(*t));
             for e in p.projection.iter() {
+                let mut fname: Option<String> = None;
+                if let (ProjectionElem::Field(f, _), Some(pt)) = (e, pty) {
+                    if let ty::Adt(def, _) = pt.ty.kind() {
+                        let v = match pt.variant_index {
+                            Some(vi) => Some(def.variant(vi)),
+                            None => if def.is_enum() { None } else { Some(def.non_enum_variant()) },
+                        };
+                        if let Some(v) = v {
+                            if f.index() < v.fields.len() {
+                                fname = Some(v.fields[f].name.as_str().to_string());
+                            }
+                        }
+                    }
+                }
+                pty = match pty {
+                    Some(pt) => std::panic::catch_unwind(std::panic::AssertUnwindSafe(|| {
+                        pt.projection_ty(tcx, e)
+                    })).ok(),
+                    None => None,
+                };
                 pj.push(match e {
                     ProjectionElem::Deref => J::Arr(vec![J::s("d")]),
                     ProjectionElem::Field(f, t) => {
-                        J::Arr(vec![J::s("f"), J::n(f.index() as i128), J::s(&self.ty_s(t))])
+                        J::Arr(vec![J::s("f"), J::n(f.index() as i128), fname.map(|n| J::s(&n)).unwrap_or(J::Null), J::s(&self.ty_s(t))])
                     }
                     ProjectionElem::Index(l) => J::Arr(vec![J::s("i"), J::n(l.index() as i128)]),
                     ProjectionElem::ConstantIndex { offset, min_length, from_end } => J::Arr(vec![
